@@ -99,22 +99,27 @@ def root_gather(ctx, thorough):
         return hits[-1] if last else hits[nth]
 
     if acc:
+        fallback = None
         for t in vcore.split_traces(vcore.read_lines(acc)):
             evs = evs_of(t)
             r = idx(evs, "Result")
-            if r is None or not evs[r].get("ok") or len(evs[r]["cells"]) < 2 or evs[0].get("sched", {}).get("overlap") != "answer":
-                continue
-            if len(evs[0]["kinds"]) != 2:
+            if r is None or not evs[r].get("ok") or len(evs[r]["cells"]) < 2 or len(evs[0]["kinds"]) != 2 \
+                    or sum(1 for k in evs[0]["kinds"].values() if k == "data") != 2:
                 continue
             b1, b2, e1 = idx(evs, "AnswerBegin", 0), idx(evs, "AnswerBegin", 1), idx(evs, "AnswerEnd", 0)
-            if None in (b1, b2, e1) or not b1 < b2 < e1 < r:
+            if None in (b1, b2, e1) or not b1 < r or not b2 < r:
                 continue
+            if evs[0].get("sched", {}).get("overlap") == "answer" and b1 < b2 < e1 < r:
+                fallback = t
+                break
+            # (when every overlap run was rejected: any run with two answers of two leaves holding data)
+            fallback = fallback or t
+        if fallback:
             src = os.path.join(ctx.scratch, "rg-selftest.ndjson")
             with open(src, "w") as f:
-                f.write("".join(t))
-            break
+                f.write("".join(fallback))
     if not src:
-        raise vcore.Unresolved("root gather: no accepted overlap run for the binding self-tests")
+        raise vcore.Unresolved("root gather: no accepted run for the binding self-tests")
 
     def move(lines, i, j):
         """line i goes in front of line j (positions of the original list)"""
@@ -143,6 +148,9 @@ def root_gather(ctx, thorough):
         first = evs[idx(evs, "AnswerBegin", 0)]["t"]
         mine = set((p[0], p[1]) for p in evs[0]["pts"][first])
         theirs = set((p[0], p[1]) for t, ps in evs[0]["pts"].items() if t != first for p in ps)
+
+        if not mine - theirs:
+            return None
 
         def fn(d):
             d["cells"] = [c for c in d["cells"] if (c[0], c[1]) not in mine - theirs]
